@@ -9,7 +9,12 @@ from lib.facts import is_node, render
 STMT = ("let", "expr", "item")
 
 
-def diverges(stmts):
+PANIC_CALL = re.compile(r"(^|::)panicking::(panic\w*|unreachable\w*|assert_failed\w*)$|(^|::)(process::(abort|exit)|intrinsics::abort|unreachable_unchecked)$")
+
+
+def diverges(stmts, panics=False):
+    """the statement list never completes normally.  `panics=True` also recognises the expanded form of panic!/assert!/unreachable!/
+    todo!: a call of `core::panicking::*` (the expanded syntax facts contain no `panic!` macro nodes any more)."""
     if not stmts:
         return False
     last = stmts[-1]
@@ -20,14 +25,44 @@ def diverges(stmts):
         return True
     if e[0] == "macro" and re.search(r"(^|::)(panic|unreachable|todo|unimplemented)$", e[1]):
         return True
+    if panics:
+        while is_node(e) and e[0] in ("block", "unsafe", "paren") and (e[0] == "paren" or (len(e[1]) == 1 and e[1][0][0] == "expr")):
+            e = e[1] if e[0] == "paren" else e[1][0][1]
+        if is_node(e) and e[0] in ("block", "unsafe"):
+            return diverges(e[1], panics)
+        if is_node(e) and e[0] == "call" and is_node(e[1]) and e[1][0] == "path" and PANIC_CALL.search(e[1][1]):
+            return True
+        if is_node(e) and e[0] == "match" and e[2] and all(diverges([["expr", a[2]]], panics) for a in e[2]):
+            return True
     if e[0] == "if" and e[3] is not None:
         els = e[3]
-        return diverges(e[2]) and (diverges(els[1]) if is_node(els) and els[0] in ("block", "unsafe") else False)
+        return diverges(e[2], panics) and (diverges(els[1], panics) if is_node(els) and els[0] in ("block", "unsafe") else False)
     return False
 
 
-def sites(body, kind="index"):
-    """[(node, facts)] for every node of `kind` in a function body (list of statements)"""
+def established(e, panics=False, debug_asserts=False):
+    """facts (condition, polarity) that hold once the `if` expression statement `e` has completed normally:
+    `if C { diverges }` => !C;  with panics=True also `if C {..} else { diverges }` => C;  with debug_asserts=True also what the body of
+    `if true { .. }` establishes (the expansion of debug_assert!: `if cfg!(debug_assertions) { if !P { panic } }`) - a statement of what
+    the author believes, to be used by belief rules only (release builds do not execute it)."""
+    if not (is_node(e) and e[0] == "if"):
+        return []
+    if diverges(e[2], panics):
+        return [(e[1], False)]
+    if panics and e[3] is not None and is_node(e[3]) and e[3][0] in ("block", "unsafe") and diverges(e[3][1], panics):
+        return [(e[1], True)]
+    if debug_asserts and e[3] is None and is_node(e[1]) and e[1][0] == "bool" and e[1][1] is True:
+        out = []
+        for st in e[2]:
+            if is_node(st) and st[0] == "expr":
+                out += established(st[1], panics, debug_asserts)
+        return out
+    return []
+
+
+def sites(body, kind="index", panics=False, debug_asserts=False):
+    """[(node, facts)] for every node of `kind` in a function body (list of statements).
+    panics / debug_asserts: see `established` (both off = the original behaviour)"""
     out = []
 
     def block(stmts, facts):
@@ -41,7 +76,9 @@ def sites(body, kind="index"):
             elif st[0] == "expr":
                 e = st[1]
                 expr(e, facts)
-                if is_node(e) and e[0] == "if" and diverges(e[2]):
+                if panics or debug_asserts:
+                    facts.extend(established(e, panics, debug_asserts))
+                elif is_node(e) and e[0] == "if" and diverges(e[2]):
                     facts.append((e[1], False))
             elif st[0] == "item":
                 pass
@@ -130,6 +167,51 @@ def atoms(facts):
     return out
 
 
+def _clause(c, pol):
+    """(X || Y) known true / (X && Y) known false, as a list of alternative literal atoms; None when it is not such a clause"""
+    while is_node(c) and c[0] == "paren":
+        c = c[1]
+    if not (is_node(c) and c[0] == "bin" and ((c[1] == "||" and pol) or (c[1] == "&&" and not pol))):
+        return None
+    lits = []
+    todo = [c]
+    op = c[1]
+    while todo:
+        x = todo.pop()
+        while is_node(x) and x[0] == "paren":
+            x = x[1]
+        if is_node(x) and x[0] == "bin" and x[1] == op:
+            todo += [x[3], x[2]]
+            continue
+        a = atoms([(x, pol)])
+        if len(a) != 1:
+            return None
+        lits.append(a[0])
+    return lits
+
+
+def atoms_closed(facts):
+    """atoms(facts) closed under unit resolution: from `A || B` and `!B` conclude `A` (conditions are compared by their text).
+    `debug_assert!(node.is_some() || !log.is_empty()); if log.is_empty() { node.unwrap() }` is decided this way."""
+    at = atoms(facts)
+    have = {(_norm(c), pol) for c, pol in at}
+    changed = True
+    while changed:
+        changed = False
+        for c, pol in list(at):
+            lits = _clause(c, pol)
+            if not lits:
+                continue
+            open_ = [(lc, lp) for lc, lp in lits if (_norm(lc), not lp) not in have]
+            if any((_norm(lc), lp) in have for lc, lp in open_):
+                continue
+            if len(open_) == 1:
+                at.append(open_[0])
+                have.add((_norm(open_[0][0]), open_[0][1]))
+                changed = True
+    return at
+
+
 def _int(e):
     while is_node(e) and e[0] in ("paren", "cast"):
         e = e[1]
@@ -183,3 +265,98 @@ def nonempty_fact(facts, recv):
             if txt in ("%s.cursor<%s.graphemes.len" % (r, r), "%s.len>0" % r, "%s.len!=0" % r, "%s.len>=1" % r):
                 return True
     return False
+
+
+def resolve_atoms(facts, inits=None, closed=False):
+    """atoms of `facts`; a condition that is a plain local is replaced by the expression the local was initialised with
+    (`let at_end = s.is_empty(); if at_end { return .. }`), `inits` = {name: initialiser} of the single-assignment locals"""
+    at = atoms_closed(facts) if closed else atoms(facts)
+    if not inits:
+        return at
+    out = []
+    todo = list(at)
+    n = 0
+    while todo and n < 200:
+        n += 1
+        c, pol = todo.pop()
+        if is_node(c) and c[0] == "path" and c[1] in inits and is_node(inits[c[1]]):
+            todo += atoms([(inits[c[1]], pol)])
+        else:
+            out.append((c, pol))
+    return out
+
+
+def nonempty_ext(facts, recv, inits=None):
+    """facts imply that the cursor-carrying value `recv` has input left, in any spelling: `recv.is_empty()` false, `recv.len()` compared
+    with a constant (either polarity / operand order), `recv.cursor < recv.graphemes.len()` in either order / polarity"""
+    if nonempty_fact(facts, recv) or len_lower_bound(facts, recv) >= 1:
+        return True
+    r = _norm(recv)
+    flip = {"<": ">", "<=": ">=", ">": "<", ">=": "<=", "==": "==", "!=": "!="}
+    neg = {"==": "!=", "!=": "==", "<": ">=", "<=": ">", ">": "<=", ">=": "<"}
+    for c, pol in resolve_atoms(facts, inits):
+        if c[0] == "mcall" and c[2] == "is_empty" and _norm(c[1]) == r and not pol:
+            return True
+        if c[0] == "bin" and c[1] in flip:
+            op, L, R = c[1], _norm(c[2]), _norm(c[3])
+            if not pol:
+                op = neg[op]
+            if L == "%s.graphemes.len" % r and R == "%s.cursor" % r:
+                L, R, op = R, L, flip[op]
+            if L == "%s.cursor" % r and R == "%s.graphemes.len" % r and op in ("<", "!="):
+                return True
+            # recv.len() against a constant, after polarity / operand order: `!= 0`, `> 0`, `>= 1`, `== n` (n >= 1)
+            L, R, op = c[2], c[3], c[1]
+            if not pol:
+                op = neg[op]
+            if _int(L) is not None and _int(R) is None:
+                L, R, op = R, L, flip[op]
+            k = _int(R)
+            while is_node(L) and L[0] == "paren":
+                L = L[1]
+            if k is not None and is_node(L) and L[0] == "mcall" and L[2] == "len" and _norm(L[1]) == r:
+                if (op == "!=" and k == 0) or (op == ">" and k >= 0) or (op in (">=", "==") and k >= 1):
+                    return True
+    return False
+
+
+def len_lower_bound_ext(facts, base, inits=None):
+    """len_lower_bound, also through conditions held in named locals (`inits`, see lib/locals.py), with `X.len() != 0` / `0 != X.len()`
+    (=> at least 1) and a length held in a local (`let n = X.len(); if n < 2 { return .. }`)"""
+    best = len_lower_bound(facts, base)
+    b = _norm(base)
+    flip = {"<": ">", "<=": ">=", ">": "<", ">=": "<=", "==": "==", "!=": "!="}
+    neg = {"==": "!=", "!=": "==", "<": ">=", "<=": ">", ">": "<=", ">=": "<"}
+
+    def thru(e):
+        n = 0
+        while inits and is_node(e) and n < 4:
+            n += 1
+            if e[0] == "paren":
+                e = e[1]
+            elif e[0] == "path" and e[1] in inits:
+                e = inits[e[1]]
+            else:
+                break
+        return e
+    for c, pol in resolve_atoms(facts, inits):
+        if c[0] == "mcall" and c[2] == "is_empty" and _norm(thru(c[1])) == b and not pol:
+            best = max(best, 1)
+            continue
+        if c[0] != "bin" or c[1] not in flip:
+            continue
+        op, L, R = c[1], thru(c[2]), thru(c[3])
+        if _int(L) is not None and _int(R) is None:
+            L, R, op = R, L, flip[op]
+        n = _int(R)
+        if n is None or not (is_node(L) and L[0] == "mcall" and L[2] == "len" and _norm(L[1]) == b):
+            continue
+        if not pol:
+            op = neg[op]
+        if op in ("==", ">="):
+            best = max(best, n)
+        elif op == ">":
+            best = max(best, n + 1)
+        elif op == "!=" and n == 0:
+            best = max(best, 1)
+    return best
